@@ -354,6 +354,7 @@ def run(ctx):
     C.setup_impl_env()
     C.clean_case_files("C19")
     svd = bool(source_facts().get("eigen_via_svd", True))
+    ctx.extra["source_takes_singular_values_as_eigenvalues"] = svd
     rng = ctx.rng.child("c19").np
     recs = []
     for i in range(ctx.n(150, 2000)):
